@@ -355,7 +355,8 @@ def _finish(cid, tier, seed, mod, t0, groups, results, meta, capped):
                 if gi is not None and WORKER_HISTORY.get(gi):
                     with open(path) as f:
                         rp = json.load(f)
-                    rp["prefix_cases"] = [c for g in WORKER_HISTORY[gi] for c in groups[g]] + groups[gi][:ci]
+                    rp["prefix_groups"] = [groups[g] for g in WORKER_HISTORY[gi]]
+                    rp["prefix_cases"] = groups[gi][:ci]
                     with open(path, "w") as f:
                         json.dump(rp, f, indent=1, default=str)
                     rc3 = confirm_in_fresh_process(path)
@@ -431,6 +432,8 @@ def run_replay(path: str, quiet=False) -> int:
         rp = json.load(f)
     cid = rp["property"]
     _init(cid, int(rp.get("seed", 0)))
+    for g in rp.get("prefix_groups", []):  # what the worker process had run before (each group as it was run)
+        _mod.run_group(list(g), int(rp.get("seed", 0)))
     res = _mod.run_group(list(rp.get("prefix_cases", [])) + [rp["case"]], int(rp.get("seed", 0)))[-1]
     if res.get("skipped"):
         if not quiet:
